@@ -202,6 +202,8 @@ def run_case(run: Run, spec, tmp):
         return None, None, {"case": case, "status": "excluded"}
     cont = P.Container(kind, layout, rng, tmp=tmp)
     apply_history(cont, hist, rng)
+    if getattr(cont, "lazy_shape", None):
+        case["lazy_members"] = cont.lazy_shape
     ctx = O.Ctx(cont, rng, variant)
     recipes = O.R[opname]
     recipe = recipes[variant % len(recipes)]
@@ -975,6 +977,120 @@ def update_stream(run, drv):
         run.corr("update_", case, e, model)
 
 
+
+def alias_value_stream(run, drv):
+    """in-place writes whose VALUE lives in the destination's own buffer: another (disjoint) window, an overlapping slice, an
+    expanded row, a transposed view of the same / of another window — `buf[:3].set_(k, buf[3:][k])`, update_, copy_, apply_,
+    set(inplace=True), index assignment.  Expected buffer content: torch's own `dst.copy_(src)` on an identically laid out twin.
+    Model: the destination's entries are selectors of the buffer's leaves, the write is an in-place step."""
+    from tensordict import TensorDict
+    rng = run.rng
+    n = 160 if run.tier == "quick" else 1600
+    reqs, exps, cases = [], [], []
+
+    def build(layout):
+        cnt = P.Counter()
+        return TensorDict({"a": P.make_leaf((6, 3), layout, cnt), "n": TensorDict({"b": P.make_leaf((6, 2), layout, cnt)}, batch_size=[6])}, batch_size=[6])
+
+    def views(buf, kind):
+        """(destination tensordict view, value tensordict view) inside `buf`"""
+        if kind == "disjoint":
+            return buf[:3], buf[3:]
+        if kind == "overlap":
+            return buf[0:4], buf[2:6]
+        if kind == "expanded_row":
+            return buf[:3], buf[5:6].expand(3)
+        if kind == "same_window":
+            return buf[1:4], buf[1:4]
+        raise KeyError(kind)
+
+    for it in range(n):
+        layout = rng.choice(["contiguous", "strided", "offset"])
+        kind = rng.choice(["disjoint", "overlap", "expanded_row", "same_window", "transposed_other", "transposed_same"])
+        op = rng.choice(["set_", "set/inplace", "update_", "copy_", "apply_", "__setitem__/index", "update/inplace"])
+        buf, twin = build(layout), build(layout)
+        if kind.startswith("transposed"):
+            # key-level only: the (3, 3) window of entry `a`, value = a transposed view of the same / of the other window
+            op = rng.choice(["set_", "set/inplace"])
+            dest, tdest = buf[:3], twin[:3]
+            val_t = (buf[:3]["a"] if kind == "transposed_same" else buf[3:]["a"]).t()
+            tval_t = (twin[:3]["a"] if kind == "transposed_same" else twin[3:]["a"]).t()
+            val = tval = None
+        else:
+            dest, val = views(buf, kind)
+            tdest, tval = views(twin, kind)
+            val_t = tval_t = None
+        held = {"a": buf["a"], "n.b": buf["n", "b"]}
+        names = ["a", "n.b"]
+        world = P.World()
+        descs = {nm: (world.desc(held[nm]), world.tok.read(held[nm])) for nm in names}
+        n0 = len(world.sids)
+        store = [[] for _ in range(n0)]
+        for nm in names:
+            (sid, offs), reads = descs[nm]
+            cells = store[sid]
+            for o_, v_ in zip(offs, reads):
+                if o_ >= len(cells):
+                    cells.extend([0] * (o_ + 1 - len(cells)))
+                cells[o_] = v_
+        dleaves = dict(P.leaves_of(dest))
+        init = ["init", ["store"] + store, ["objs", ["obj"] + [[nm, world.sid_of(dleaves[nm]), P.elem_offsets(dleaves[nm])] for nm in names],
+                                                    ["obj"] + [["id:" + nm, descs[nm][0][0], descs[nm][0][1]] for nm in names]]]
+        keys = ["a"] if (op in ("set_", "set/inplace")) else names
+        key = "a"
+        case = {"layout": layout, "value": kind, "op": op}
+        keys0 = sorted(map(str, buf.keys(True, True)))
+        try:
+            with time_limit(20), torch.no_grad():
+                # torch's own semantics on the twin
+                tl, tv = dict(P.leaves_of(tdest)), (dict(P.leaves_of(tval)) if tval is not None else {"a": tval_t})
+                for k in keys:
+                    tl[k].copy_(tv[k])
+                if op == "set_":
+                    dest.set_(key, val_t if val_t is not None else val.get(key))
+                elif op == "set/inplace":
+                    dest.set(key, val_t if val_t is not None else val.get(key), inplace=True)
+                elif op == "update_":
+                    dest.update_(val)
+                elif op == "update/inplace":
+                    dest.update(val, inplace=True)
+                elif op == "copy_":
+                    dest.copy_(val)
+                elif op == "apply_":
+                    dest.apply_(lambda x, y: y, val)
+                else:
+                    dest[...] = val
+        except Exception as e:
+            run.count("alias_value.outcome", "raised:" + err_class(e))
+            continue
+        run.case(("alias_value", it, str(case)), nontrivial=kind != "same_window")
+        run.count("alias_value.outcome", "ok")
+        run.count("alias_value.kind", kind)
+        run.count("alias_value.op", op)
+        theld = {"a": twin["a"], "n.b": twin["n", "b"]}
+        what = []
+        if sorted(map(str, buf.keys(True, True))) != keys0 or buf["a"] is not held["a"] or buf["n", "b"] is not held["n.b"]:
+            what.append("key set changed or an entry was rebound")
+        for nm in names:
+            if not torch.equal(held[nm], theld[nm]):
+                what.append(f"entry {nm}: the buffer tensor held before does not hold what dst.copy_(src) gives (the write was dropped or misplaced)")
+        if what:
+            run.oracle_fail("alias_value", case, "; ".join(what[:2]), fingerprint=f"alias_value|{kind}|{op}")
+        else:
+            run.oracle_ok("alias_value")
+        tdl = dict(P.leaves_of(tdest))
+        writes = [[nm, world.tok.read(tdl[nm])] for nm in names]
+        reqs.append(sx("c07.run", init, ["steps", ["op", "set_", 0, ["w"] + writes, ["r"], ["s"]]]))
+        exps.append([[nm, world.tok.read(held[nm])] for nm in names])
+        cases.append(case)
+    for case, e, a in zip(cases, exps, ask_chunked(drv, reqs)):
+        a = parse_sx(a)
+        if a[0] != "ok":
+            run.corr("alias_value(in-place)", case, "ok", a)
+            continue
+        run.corr("alias_value(in-place)", case, e, [[str(l[0])[3:], l[3]] for l in a[1][2][1:]])
+
+
 def main():
     run = Run("C07")
     run.rule = ("every public operation of TensorDict (reflected) must have a row in the Lean class table; each row with a call recipe is executed on "
@@ -1029,6 +1145,7 @@ def main():
     index_stream(run, drv)
     subwindow_stream(run, drv)
     update_stream(run, drv)
+    alias_value_stream(run, drv)
 
     # 2. cases
     rng = run.rng
@@ -1065,6 +1182,11 @@ def main():
             if chain is None and op2 is None and table[op] in ("outOfPlace", "copy") and rng.random() < 0.6:
                 post = rng.choice(POSTS)
             specs.append((kind, layout, hist, op, rng.randrange(64), rng.randrange(1 << 30), chain, op2, post))
+    # lazy stacks with ONE member / stacks of stacks x the deep-copying operations
+    for op in ("contiguous", "clone", "to_tensordict", "densify", "stack", "cat", "__getitem__/advanced", "masked_select", "gather", "consolidate"):
+        if op in O.R:
+            for _ in range(8 if quick else 60):
+                specs.append(("lazy", rng.choice(["contiguous", "strided", "offset", "mixed"]), [], op, rng.randrange(64), rng.randrange(1 << 30), None, None, None))
     # memory-mapped containers: second mappings of the same files (aliasing through the file)
     for op in ("load_memmap", "memmap_like", "memmap", "memmap_refresh_"):
         if op in O.R:
